@@ -354,6 +354,9 @@ func (c *C20) judgeCycle(x *engine.Ctx, sim *service.Sim, w *service.World, cyc 
 	for i, sc := range scrapes {
 		x.S.Eval(1)
 		isFinal := i == len(scrapes)-1
+		if sc.BlockedBehindProof {
+			return engine.Violatef("C20/metrics-endpoint-blocked-while-proof-in-flight", "scrape answered at step %d: its request had been taken up by the metrics server while a proof was in flight, its handler never became runnable (blocked on a lock or before any yield), and a prove request completed first", sc.Step)
+		}
 		if !sc.OK {
 			return engine.Violatef("C20/metrics-endpoint-unavailable", "scrape at step %d failed", sc.Step)
 		}
